@@ -298,8 +298,15 @@ func (l *TLSListener) Accept() (net.Conn, error) {
 	h := &tls.Conn{}
 	TLSConns[h] = c
 	TLSConfigs[h] = l.Config
+	if StallNextTLS {
+		StallNextTLS = false
+		TLSStalled[c] = true
+	}
 	return h, nil
 }
+
+// StallNextTLS: the next connection accepted by a TLS listener never completes its TLS negotiation
+var StallNextTLS bool
 func (l *TLSListener) Close() error   { return l.Inner.Close() }
 func (l *TLSListener) Addr() net.Addr { return l.Inner.Addr() }
 
